@@ -417,7 +417,7 @@ func runC48(t failT, rec *ev.Recorder, c c48Case) {
 
 func TestC48(t *testing.T) {
 	rec := ev.New(t, "C48")
-	rec.Rule("rapid-generated state machines of 3..24 steps over a responder for one of 3 zones with 2 name servers: Present/CleanUp through the real ChordSolver (managed domain -> label 'managed', two custom hostnames -> hashed client token labels, 4 key authorizations), direct PrefixAppend/PrefixRemove of values (incl. the empty value) under labels incl. dotted ones (x.managed), storage failure on/off, and queries: zone apex, label.zone, names 2 and 3 labels below the zone, names that only share a string suffix with the zone, name-server names, another zone; generated letter case; types TXT/A/AAAA/NS/SOA/ANY/MX/CNAME; EDNS on/off. Each query is one evaluated case, compared with a model (label -> set of values) and the configured static records. Non-trivial query: TXT at label.zone with stored values or failing storage, a name >= 2 labels below the zone, an ANY query, or a name sharing only a string suffix with the zone. Distinct = distinct (zone, stored state, failing flag, query name, type).")
+	rec.Rule("(b) queries in flight (class query-in-flight-across-change): the storage listing of a TXT query is held back, a value of that label is stored or removed, and a second TXT query for the label (any letter case) started afterwards must answer the set as it is then. (a) rapid-generated state machines of 3..24 steps over a responder for one of 3 zones with 2 name servers: Present/CleanUp through the real ChordSolver (managed domain -> label 'managed', two custom hostnames -> hashed client token labels, 4 key authorizations), direct PrefixAppend/PrefixRemove of values (incl. the empty value) under labels incl. dotted ones (x.managed), storage failure on/off, and queries: zone apex, label.zone, names 2 and 3 labels below the zone, names that only share a string suffix with the zone, name-server names, another zone; generated letter case; types TXT/A/AAAA/NS/SOA/ANY/MX/CNAME; EDNS on/off. Each query is one evaluated case, compared with a model (label -> set of values) and the configured static records. Non-trivial query: TXT at label.zone with stored values or failing storage, a name >= 2 labels below the zone, an ANY query, or a name sharing only a string suffix with the zone. Distinct = distinct (zone, stored state, failing flag, query name, type).")
 	rec.Assume("zones do not overlap themselves (no zone like a.a where label.zone contains the zone string twice); labels are lower case as the solver writes them; names outside the zone are informational only (statement silent; cmd/dns routes them elsewhere through a label-wise ServeMux); TXT at the zone apex must return no data",
 		"ANY for a name >= 2 labels below the zone may be answered NOTIMP or authoritative NXDOMAIN (the statement gives both rules)")
 
@@ -439,6 +439,9 @@ func TestC48(t *testing.T) {
 		{Op: "query", Name: "managed.acme.example.com.", Qtype: "TXT"},
 	}})
 
+	ev.RapidCheck(t, 200, 5000, func(rt *rapid.T) {
+		c48QueriesInFlight(rt, rec, rt)
+	})
 	ev.RapidCheck(t, 1500, 60000, func(t *rapid.T) {
 		runC48(t, rec, genC48(t))
 	})
